@@ -360,8 +360,8 @@ def replay_fuzz(rec, args):
 
 
 CHECKS = [
-    Check("stateful", custom=run_machines, quick=70, thorough=300, quick_shards=8, thorough_shards=16,
+    Check("stateful", custom=run_machines, quick=70, thorough=150, quick_shards=8, thorough_shards=16,
           replay=replay_machine),
-    Check("fuzz_heap", custom=fuzz, quick=12000, thorough=400000, quick_shards=8, thorough_shards=16,
+    Check("fuzz_heap", custom=fuzz, quick=12000, thorough=250000, quick_shards=8, thorough_shards=16,
           replay=replay_fuzz),
 ]
